@@ -51,13 +51,20 @@ def perm_cases():
     return cases
 
 
+CLASSES = ["ModelDecay", "AmplitudeChain", "GooFitChain", "GooFitPyChain"]
+
+
 def build_perm(args):
-    cid, tree, finals = args
+    cid, tree, finals, clsname = args
     from particle import Particle
     from decaylanguage.modeling.decay import ModelDecay
+    from decaylanguage.modeling.amplitudechain import AmplitudeChain
+    from decaylanguage.modeling.goofit import GooFitChain, GooFitPyChain
+    cls = {"ModelDecay": ModelDecay, "AmplitudeChain": AmplitudeChain, "GooFitChain": GooFitChain, "GooFitPyChain": GooFitPyChain}[clsname]
 
     def mk(t):
-        return ModelDecay(Particle.from_pdgid(IDS[t["name"]]), [mk(k) for k in t["kids"]])
+        # (the permutations are asked of the class that emits the code as well as of the base class)
+        return cls(Particle.from_pdgid(IDS[t["name"]]), [mk(k) for k in t["kids"]])
     obs = {"perms": [], "raised": "-"}
     try:
         line = mk(tree)
@@ -65,7 +72,7 @@ def build_perm(args):
         obs["perms"] = [[i + 1 for i in p] for p in line.list_structure(fs)]
     except Exception as e:  # noqa: BLE001
         obs["raised"] = repr(e)[:200]
-    return {"prop": "C18P", "cid": cid, "tree": tree, "finals": finals, "obs": obs}
+    return {"prop": "C18P", "cid": cid, "tree": tree, "finals": finals, "cls": clsname, "obs": obs}
 
 
 def build_emit(args):
@@ -127,15 +134,15 @@ def run(tier, seed, replay_path=None):
     try:
         # (a) the permutation sets: every tree shape over every multiplicity pattern (exhaustive, both tiers)
         pc = perm_cases()
-        pcases = pmap(build_perm, [(i, c["tree"], c["finals"]) for i, c in enumerate(pc)])
+        pcases = pmap(build_perm, [(i, c["tree"], c["finals"], k) for i, c in enumerate(pc) for k in CLASSES])
         rej = judge_ampgen(pcases, wd, o, "judge list_structure against Perms (AmpGen trace mode), exhaustive over shapes x patterns")
         for c in pcases:
             o.traces += 1
             o.evaluations += 1
-            o.nontrivial.add(json.dumps([c["tree"], c["finals"]]))
+            o.nontrivial.add(json.dumps([c["tree"], c["finals"], c["cls"]]))
         for i, fl in rej.items():
             c = pcases[i]
-            o.violate(fl[0]["clause"], {"tree": c["tree"], "finals": c["finals"]}, {"diag": fl[0].get("diag"), "obs": c["obs"]})
+            o.violate(fl[0]["clause"], {"tree": c["tree"], "finals": c["finals"], "cls": c["cls"]}, {"diag": fl[0].get("diag"), "obs": c["obs"]})
         o.notes["permutation_cases"] = len(pcases)
         o.exhaustive = True
         # (b) generated code of both languages for four-body lines over the spin structures, topologies, lineshape kinds
